@@ -428,7 +428,15 @@ SelfProgs(u) == {<<VarS("l", ListE(<<I(1)>>)), MethodS("l", "append", AppendCps,
                    ES([k |-> "idx", a |-> Id("l"), b |-> I(0)])>>,
                  <<VarS("m", MapE(<<StrK(98)>>, <<I(1)>>)), SetIdxS(Id("m"), StrK(99), "=", Id("m")), PV(1, CallE(Id("len"), <<Id("m")>>)), ES(Id("m"))>>}
 CountLoops(u) == {CountLoop(style, n) : style \in {"range2", "range1", "in"}, n \in {-3, -1, 0, 2}}
-IterMuts(u) == MapMuts(u) \cup CountLoops(u) \cup SelfProgs(u) \cup {IterMutProg(style, mut, at) : style \in {"range2", "range1", "in"},
+\* the callback of list.map / filter / each assigns to an element of the list being walked: an element not yet reached
+\* is passed with its new value (Lang!MapCB reads each item when its step comes)
+CbMutProg(meth, at) ==
+  LET cb == FuncE("", <<Param("x")>>, <<SetIdxS(Id("l"), I(at), "+=", I(6)), Ret(Id("x"))>>)
+  IN <<VarS("l", ListE(<<I(3), I(4), I(0)>>)),
+       VarS("r", CallE(AttrE(Id("l"), meth, MethCps(meth)), <<cb>>)),
+       PV(1, ListE(<<Id("r"), Id("l")>>)), ES(I(0))>>
+CbMuts(u) == {CbMutProg(m, at) : m \in {"map", "filter", "each"}, at \in {0, 1, 2, -1}}
+IterMuts(u) == MapMuts(u) \cup CountLoops(u) \cup SelfProgs(u) \cup CbMuts(u) \cup {IterMutProg(style, mut, at) : style \in {"range2", "range1", "in"},
                   mut \in {"append", "pop", "extend", "reverse", "setlast", "rebind"}, at \in {1, 2, 4}}
 
 \* several deferred calls in one function: a function literal called in place, a named script function, a builtin, in
